@@ -23,7 +23,8 @@ ASSUMPTIONS = [
     "so the slip is compared by its norm (and through the Jacobian/hierarchy clauses)",
     "planes have constant orientation (the statement's restriction); sphere centres stay >= 0.3 apart",
     "a derivative the System exposes may raise NotImplementedError; any other exception is a failure",
-    "differencing tolerance 1e-6*(1+max|value|)",
+    "differencing tolerance 1e-6*(1+max|value|); the acceleration-level clauses are asserted at two velocities at the same "
+    "(t, q), the second one after everything else was evaluated at the first (stale per-configuration memoisation)",
 ]
 CASES = {"quick": 500, "thorough": 30000}
 SHARDS = {"quick": 8, "thorough": 16}
@@ -211,6 +212,19 @@ def check(spec):
         if nu:
             num, dis = jacobian(lambda u_: system.gamma_F(t, q, u_), u, hu)
             cmp("W_F_is_transposed_dgamma_F_du", D(system.W_F(t, q)).T, num, dis)
+
+    # ---- the same clauses at a second velocity at the *same* (t, q): the contact memoises geometric quantities per
+    # configuration, and a velocity-dependent quantity keyed on (t, q) only would be served stale here
+    if nu:
+        u2 = -0.6 * u[::-1] + 0.3
+        ud2 = 0.8 * ud[::-1] - 0.1
+        qd2 = system.q_dot(t, q, u2)
+        num, dis = directional(lambda e: system.g_N_dot(t + e, q + e * qd2, u2 + e * ud2), 1e-3)
+        cmp("g_N_ddot_is_time_derivative_of_g_N_dot:second_velocity_same_configuration", system.g_N_ddot(t, q, u2, ud2), num, dis)
+        if mu > 0:
+            num, dis = directional(lambda e: system.gamma_F(t + e, q + e * qd2, u2 + e * ud2), 1e-3)
+            cmp("gamma_F_dot_is_time_derivative_of_gamma_F:second_velocity_same_configuration",
+                system.gamma_F_dot(t, q, u2, ud2), num, dis)
 
     # ---- every exposed derivative: exact or NotImplementedError ---------------------------------
     def exposed(name, call, reference, wrt):
